@@ -5,6 +5,7 @@
 package main
 
 import (
+	"strings"
 	"fmt"
 
 	"github.com/goplus/xgo/scanner"
@@ -112,6 +113,16 @@ type st struct {
 	insertSemi bool
 	nParen     int
 	last       int
+	// trail: same-line block comments scanned after a token that left a semicolon pending. The
+	// scanner decides about that semicolon by looking ahead past such comments (findLineEnd), so in
+	// the witness the decision was taken against the end of input; the continuation decides again.
+	// Such a state is therefore the pending state plus the comments, not the state after them.
+	trail string
+}
+
+// inlineBlockComment: a /*...*/ comment without a line break (the only lexemes the scanner looks past).
+func inlineBlockComment(lx string) bool {
+	return strings.HasPrefix(lx, "/*") && strings.HasSuffix(lx, "*/") && len(lx) >= 4 && !strings.Contains(lx, "\n")
 }
 
 func clamp(n int) int {
@@ -131,8 +142,12 @@ func bfs(c *engine.Check) {
 	}
 	seen := map[st]bool{}
 	var queue []node
+	maxTrail := 1
+	if c.Thorough() {
+		maxTrail = 2
+	}
 	for _, cm := range []bool{false, true} {
-		s0 := st{cm, false, 0, -1}
+		s0 := st{cm, false, 0, -1, ""}
 		seen[s0] = true
 		queue = append(queue, node{s0, ""})
 	}
@@ -170,7 +185,18 @@ func bfs(c *engine.Check) {
 				if end == nil {
 					continue
 				}
-				ns := st{nd.s.comments, end.InsertSemi, clamp(end.NParen), li}
+				ns := st{nd.s.comments, end.InsertSemi, clamp(end.NParen), li, ""}
+				if nd.s.insertSemi && inlineBlockComment(lx.Text) && !strings.Contains(sep, "\n") {
+					if strings.Count(nd.s.trail, "\x00") >= maxTrail {
+						continue // the transition was evaluated; longer comment runs are not expanded
+					}
+					sc := sep
+					if sc == "\t" {
+						sc = " "
+					}
+					ns = nd.s
+					ns.trail += sc + lx.Text + "\x00"
+				}
 				if !seen[ns] {
 					seen[ns] = true
 					queue = append(queue, node{ns, src})
